@@ -698,6 +698,7 @@ func codeName(c int) string {
 // unavailableType: gorums' own "stream is down" and grpc transport errors
 // carry codes.Unavailable; a send on a broken stream reports io.EOF.
 func unavailableType(line string) bool {
-	return strings.Contains(line, "code = Unavailable") || line == "EOF" || strings.HasSuffix(line, ": EOF") || strings.Contains(line, "connection is nil") ||
-		strings.Contains(line, "connection refused") || strings.Contains(line, "context deadline exceeded")
+	// (a bare "context deadline exceeded" is not: it would blame the caller's context, which is alive,
+	// for the manager's internal dial timeout)
+	return strings.Contains(line, "code = Unavailable") || line == "EOF" || strings.HasSuffix(line, ": EOF") || strings.Contains(line, "connection refused")
 }
